@@ -94,6 +94,22 @@ CHECKS = {
              "are piped into `remove --dry-run` and the paths bash decodes from the script must be listed in the report.",
         note=COMMON_NOTE + "Paths are compared after fclones' own Path normalisation. The bounded part is exhaustive.",
         design="4/C10"),
+    "C19": dict(
+        category="exploration",
+        technique="runtime monitoring under an interpreter-controlled scheduler: Miri many-seeds + monitors (holder count, count invariant, deadlock/race/UB detection), native stress",
+        text="The repository's semaphore.rs is included verbatim (#[path]) in a small crate and run under Miri's seeded "
+             "scheduler at three preemption rates over a scenario matrix (2..4 threads, 1..3 acquire/release pairs, initial "
+             "permits 0..2 incl. a negative start with an external releaser, guards dropped on the acquiring or on another "
+             "thread, bounded spurious notify_all through hook H4). Monitors: a shadow holder counter never exceeds the "
+             "permits, the count (read under the semaphore's own lock) stays in range, the final count equals initial + "
+             "released, every acquisition completes; Miri reports deadlocks (lost wake-ups), data races and UB. Every thread "
+             "is bounded so a lost wake-up is a deadlock, not a livelock. The number of distinct event orders seen per "
+             "scenario is measured. A native release build runs the same monitors with 2..64 threads under a watchdog with a "
+             "quiescence test.",
+        note="Exploration of interleavings, not exhaustion: a seeded sample under Miri's scheduler (quick 8 seeds x 3 rates x 54 "
+             "scenarios; thorough 96 seeds x 216 scenarios). Trusted base: Miri's model of std Mutex/Condvar; hook H4 only "
+             "adds notify_all/count accessors.",
+        design="4/C19"),
 }
 
 NOT_YET = {}
